@@ -581,8 +581,9 @@ def parseFloatModel (feats : Features) (fmt : Format) (o : POpts) (isPartial : B
   | some e => s!"opterr {e} -"
   | none =>
     let fe := formatError feats fmt
-    if !isPartial && fe.isSome then s!"err {fe.getD ""} -"
-    else if !isPartial && !isValidOptionsPunctuation feats fmt o.exp o.dp then "err InvalidPunctuation -"
+    -- both entry points of `api.rs` validate (the partial one since /repo commit e9d14fa)
+    if fe.isSome then s!"err {fe.getD ""} -"
+    else if !isValidOptionsPunctuation feats fmt o.exp o.dp then "err InvalidPunctuation -"
     else if !checkRadix feats fmt then "err InvalidRadix -"
     else
       let c : Cfg := ⟨feats, fmt, debug⟩
